@@ -15,7 +15,9 @@
        [C09_cyclic_core_preserves_minimum], exactness of the branch and bound
        [C09_branch_and_bound_invariants]); the same on the finite domains of
        the property's quantifier by computation ([_bounded], kept as
-       independent evidence); the unrepaired leaf of _traverse is refuted
+       independent evidence); [C09_total]/[C09_full_total]: the model returns
+       a cover on every instance (the fuel suffices, no pick from an empty
+       set); the unrepaired leaf of _traverse is refuted
        ([C09_refuted_unrepaired_leaf], finding F16). *)
 From Coq Require Import List ZArith NArith Bool.
 Import ListNotations.
@@ -23,7 +25,8 @@ From Omega Require Import L5Cover.Boxes L5Cover.BoxesProofs L5Cover.MinCover
   L5Cover.MinCoverProofs L5Cover.MinCoverBounded L5Cover.MinCoverBounded3L
   L5Cover.MinCoverBounded4 L5Cover.BoundsProofs L5Cover.FloorLit
   L5Cover.FloorLitProofs L5Cover.MinCoverOld L5Cover.MinCoverRefuted
-  L5Cover.CyclicCoreOpt L5Cover.MinCoverFull.
+  L5Cover.CyclicCoreOpt L5Cover.MinCoverFull L5Cover.CyclicCoreTotal
+  L5Cover.MinCoverTotal.
 Open Scope Z_scope.
 
 (* ---- (1) the order used by the code is inclusion of boxes *)
@@ -248,6 +251,50 @@ Theorem C09_full :
     min_prime_cover rs f care K.
 Proof. exact minimize_min. Qed.
 
+(* ---- (3'') totality: the model returns a cover on EVERY instance, for every
+   pick function that returns an element of every non-empty set (as dd's
+   pick does): the fuel of the model suffices and no element is picked from
+   an empty set *)
+(* the cyclic-core fixpoint ends within its fuel (at most 2 (|X| + |Y|) + 2
+   iterations: an iteration that does not shrink X or Y makes every x its
+   own ceiling and every y its own floor, and the next one either finds an
+   essential element or is the last) *)
+Theorem C09_cyclic_core_terminates : forall rs X Y,
+  below_top rs X -> above_bot rs Y -> exists r, cyclic_core rs X Y = Some r.
+Proof. exact cyclic_core_total. Qed.
+
+(* in the cyclic core of a feasible problem every x lies below at least two
+   elements of Y: removing the branching element keeps the problem feasible *)
+Theorem C09_cyclic_core_two_covers : forall rs X Y Xc Yc Ec,
+  cyclic_core rs X Y = Some (Xc, Yc, Ec) -> feasible rs X Y ->
+  feasible rs Xc Yc /\ (length Yc <= length Y)%nat /\
+  forall x d, In x Xc -> exists y, In y Yc /\ y <> d /\ box_le x y.
+Proof. exact cyclic_core_two_covers. Qed.
+
+Theorem C09_total : forall rs pick f care,
+  (forall s b, pick s = Some b -> In b s) ->
+  (forall s, pick s = None -> s = []) ->
+  exists K, minimize rs pick f care = Some K.
+Proof. exact minimize_total. Qed.
+
+(* C09, total form: on every instance the model returns a duplicate-free
+   minimum-cardinality cover of f by primes of f \/ ~care *)
+Theorem C09_full_total : forall rs pick f care,
+  (forall s b, pick s = Some b -> In b s) ->
+  (forall s, pick s = None -> s = []) ->
+  exists K, minimize rs pick f care = Some K /\ min_prime_cover rs f care K.
+Proof.
+  intros rs pick f care Hok Htot.
+  destruct (minimize_total rs pick f care Hok Htot) as [K HK].
+  exists K. split; [exact HK | apply (minimize_min rs pick f care K Hok HK)].
+Qed.
+
+(* non-vacuity of the hypotheses on pick *)
+Example C09_pick_first_total : forall s, pick_first s = None -> s = [].
+Proof. exact pick_first_total. Qed.
+Example C09_pick_last_total : forall s, pick_last s = None -> s = [].
+Proof. exact pick_last_total. Qed.
+
 Print Assumptions C09_order_is_inclusion.
 Print Assumptions C09_checker_correct.
 Print Assumptions C09_min_cover_size_correct.
@@ -267,4 +314,8 @@ Print Assumptions C09_refuted_unrepaired_leaf.
 Print Assumptions C09_cyclic_core_preserves_minimum.
 Print Assumptions C09_branch_and_bound_invariants.
 Print Assumptions C09_full.
+Print Assumptions C09_cyclic_core_terminates.
+Print Assumptions C09_cyclic_core_two_covers.
+Print Assumptions C09_total.
+Print Assumptions C09_full_total.
 Print Assumptions C09_refuted_unrepaired_leaf_full.
